@@ -291,13 +291,33 @@ def py_fun2(f, a, b):
     return f[1]
 
 
+class Maybe(Exception):
+    """whether the component is reached depends on an evaluation order the property does not fix"""
+
+
+def force_all(thunks):
+    """force every thunk; a probe together with an independent failure is order dependent"""
+    probe = stuck = False
+    for t in thunks:
+        try:
+            py_force(t.get())
+        except Probe:
+            probe = True
+        except Stuck:
+            stuck = True
+    if probe and stuck:
+        raise Maybe()
+    if probe:
+        raise Probe()
+    if stuck:
+        raise Stuck("component")
+
+
 def py_force(v):
     if isinstance(v, list):
-        for t in reversed(v):
-            py_force(t.get())
+        force_all(v)
     elif isinstance(v, dict):
-        for k in reversed(list(v.keys())):
-            py_force(v[k].get())
+        force_all(list(v.values()))
     elif callable(v):
         raise Stuck("function")
     return v
@@ -315,11 +335,24 @@ def py_eq(a, b):
     if isinstance(x, dict) and isinstance(y, dict):
         if set(x) != set(y):
             return False
-        ks = list(x.keys())
-        for k in ks[:1] + list(reversed(ks[1:])):
-            if not py_eq(x[k], y[k]):
-                return False
-        return True
+        probe = stuck = differ = False
+        for k in x:
+            try:
+                if not py_eq(x[k], y[k]):
+                    differ = True
+            except Probe:
+                probe = True
+            except Stuck:
+                stuck = True
+        if probe and (differ or stuck):
+            raise Maybe()          # the order of the fields decides (and annotations reorder fields)
+        if stuck and differ:
+            raise Maybe()
+        if probe:
+            raise Probe()
+        if stuck:
+            raise Stuck("field")
+        return not differ
     if callable(x) and callable(y):
         raise Stuck("incomparable")
     return type(x) == type(y) and x == y
@@ -341,6 +374,9 @@ def py_merge(a, b):
     need(not isinstance(x, (list, dict)) and not isinstance(y, (list, dict)) and not callable(x) and not callable(y))
     need(type(x) == type(y) and x == y)
     return x
+
+
+MERGE_OBS = ("merger", "mergel")
 
 
 def py_obs(o, t):
@@ -409,6 +445,8 @@ def py_obs(o, t):
         return t.get()
     if k == "call":
         f = t.get(); need(callable(f)); return f(py_atom(o[1], o[1] == ("probe",)))
+    if k == "probe":
+        raise Probe()
     v = t.get()
     if k in ("atp", "at", "map", "concatr", "concatl", "slice", "slicep", "foldl", "foldr", "filter", "any", "all", "elem"):
         need(isinstance(v, list))
@@ -477,17 +515,30 @@ def py_container(k, pos):
     raise ValueError(k)
 
 
+def subst_call_arg(o, a):
+    if isinstance(o, tuple):
+        if o[0] == "call":
+            return ("call", a)
+        if o[0] == "comp":
+            return ("comp", subst_call_arg(o[1], a), subst_call_arg(o[2], a))
+    return o
+
+
 def py_reach(k, o, pos):
-    """True / False: the component at pos is observed by `export (o k)`.  For a function container
-    pos is ("arg",): the call observes its argument.  Returns None when the pipeline fails on its
-    own before (Stuck)."""
+    """True / False: the component at pos is observed by `export (o k)`; "maybe" when that depends on
+    an evaluation order the property does not fix; None when the pipeline fails on its own first.
+    For a function container pos is ("arg",) (the call's argument) or ("res",) (the call's result)."""
     try:
         if k[0] == "kfun" and pos == ("arg",):
-            o = ("call", ("probe",))
+            o = subst_call_arg(o, ("probe",))
+        if k[0] == "kfun" and pos == ("res",):
+            k = ("kfun", ("probe",))
         py_force(py_obs(o, th_val(py_container(k, pos))))
         return False
     except Probe:
         return True
+    except Maybe:
+        return "maybe"
     except Stuck:
         return None
     except RecursionError:
@@ -687,13 +738,17 @@ def gen_case(rng):
             T = ("recc", rng.shuffle(names), NUM, "closed")
         ty, shape = "rec", {"names": list(names)}
     else:
-        f = rng.choice([("addk", 1), "id", ("const", 0), ("consts", s("bad")), ("gtk", 0)])
-        arg = special if special else n(rng.range(0, 3))
-        k, T = ("kfun", f), ("fun", NUM, NUM)
-        o = ("call", arg)
-        if rng.chance(1, 3):
-            o = ("comp", o, rng.choice([("addk", 1), "id", ("const", 0)]))
-        return {"k": k, "T": T, "o": o, "pos": ("arg",) if special else None, "special": special}
+        cont = rng.choice([None, None, ("addk", 1), "id", ("const", 0)])
+        if special == BAD and rng.chance(1, 3):
+            # the function's result violates the codomain
+            k, T, o, pos = ("kfun", ("consts", s("bad"))), ("fun", NUM, NUM), ("call", n(rng.range(0, 3))), ("res",)
+        else:
+            f = rng.choice([("addk", 1), "id", ("const", 0), ("addk", 2)])
+            arg = special if special else n(rng.range(0, 3))
+            k, T, o, pos = ("kfun", f), ("fun", NUM, NUM), ("call", arg), (("arg",) if special else None)
+        if cont:
+            o = ("comp", o, cont)
+        return {"k": k, "T": T, "o": o, "pos": pos, "special": special}
     depth = rng.weighted([(1, 30), (2, 40), (3, 30)])
     obs = []
     for _ in range(depth):
@@ -774,9 +829,13 @@ def detuple(x):
 def expected_error(case):
     if case["special"] == FAIL:
         return "ERR Fail"
-    if case["k"][0] == "kfun":
+    if case["k"][0] == "kfun" and case["pos"] == ("arg",):
         return "ERR Blame-"
     return "ERR Blame+"
+
+
+def has_merge(o):
+    return any(x in MERGE_OBS for x in flat_obs(o))
 
 
 def run_cases(ck, cases, exe_model):
@@ -807,15 +866,24 @@ def run_cases(ck, cases, exe_model):
         # ---- direct oracle on the implementation
         direct_bad = None
         if viol and pr is True:
-            if a != expected_error(c):
+            ok_err = [expected_error(c)]
+            if has_merge(c["o"]) and a == u and a in ("ERR NonMergeable", "ERR Fail"):
+                # a merged field is (x & y) | contracts: the merge looks at x before the check, and a
+                # conflicting / failing other operand surfaces first (same outcome without annotation)
+                ok_err.append(a)
+                ck.count("merge_preempts_check")
+            if a not in ok_err:
                 direct_bad = "the %s component at %s is reached but observe (v | T) = %s (expected %s)" % (
                     "failing" if c["special"] == FAIL else "violating", c["pos"], a, expected_error(c))
+        elif viol and pr == "maybe":
+            if u == expected_error(c) and a != u:
+                ck.count("order_dependent_unchecked")   # the two runs legitimately took different orders
+            elif a != u and a != expected_error(c):
+                direct_bad = "observe (v | T) = %s is neither the component's error %s nor observe v = %s" % (a, expected_error(c), u)
         elif pr is False or not viol:
             # not reached, or nothing violates: the annotation must be invisible
             if pr is not None and a != u:
                 direct_bad = "component not reached / nothing violates, but observe (v | T) = %s differs from observe v = %s" % (a, u)
-            if viol and pr is False and not a.startswith("OK") and a == expected_error(c) and u.startswith("OK"):
-                direct_bad = "unreached component surfaced: %s" % a
         if direct_bad:
             ck.violation("oracle:" + "+".join(sorted(set(flat_obs(c["o"])))) + ":" + c["k"][0], direct_bad, replay)
         # ---- model vs implementation
@@ -828,7 +896,7 @@ def run_cases(ck, cases, exe_model):
                 ck.obligation("correspondence:model-vs-nickel", "correspondence", False,
                               "case %s\nnickel: %s\nimpl  %s\nmodel %s" % (model_line(c), replay["nickel"], a, m))
         # ---- Coq reach (probe) vs the Python reach table
-        if c["pos"] and c["k"][0] != "kfun" and pr is not None:
+        if c["pos"] and c["k"][0] != "kfun" and pr in (True, False):
             if r != "REACH " + ("true" if pr else "false"):
                 ck.obligation("correspondence:reaches-vs-table", "correspondence", False,
                               "case %s: Spec.reaches says %s, the Python reach table says %s" % (reach_line(c), r, pr))
